@@ -145,11 +145,18 @@ func (r *Runner) GenOp(rng *rand.Rand) Op {
 			for _, i := range rng.Perm(len(keys))[:1+rng.Intn(minInt(3, len(keys)))] {
 				ds = append(ds, mk(keys[i]))
 			}
+			if rng.Intn(3) == 0 {
+				// the same key twice in one batch, with different contents: the later one wins
+				ds = append(ds, mk(ds[rng.Intn(len(ds))].ID))
+			}
 			return Op{Kind: "putall", Docs: ds}
 		case x == 4:
 			ds := []Doc{}
 			for _, i := range rng.Perm(len(keys))[:1+rng.Intn(minInt(2, len(keys)))] {
 				ds = append(ds, mk(keys[i]))
+			}
+			if rng.Intn(3) == 0 {
+				ds = append(ds, mk(ds[0].ID))
 			}
 			return Op{Kind: "putbatch", Docs: ds}
 		default:
